@@ -22,7 +22,60 @@ HASH_SEEDS = {"quick": [0, 1], "thorough": [0, 1, 2, 3]}
 
 
 def shards(tier):
-    return plan_shards(tier, 8 if tier == "quick" else 64)
+    return plan_shards(tier, 8 if tier == "quick" else 64) + [("construction", 0, 0, 0)]
+
+
+def colliding_intervention_sets():
+    """Equal frozensets of interventions with different iteration orders (found for the current hash seed).
+
+    Two members of a small frozenset that fall into the same slot of the hash table are iterated in insertion order, so
+    frozenset([i, j]) and frozenset([j, i]) are equal objects that iterate differently.  Yields (set_forward, set_backward).
+    """
+    from y0.dsl import Intervention
+
+    pool = ["B", "C", "D", "E", "F", "G", "M", "R", "S", "T", "U", "W", "X", "Y", "Z"] + [f"X{i}" for i in range(1, 7)] + [f"Z{i}" for i in range(1, 7)]
+    found = 0
+    for n1, n2 in itt.combinations(pool, 2):
+        for s1, s2 in ((False, True), (True, False), (False, False)):
+            i, j = Intervention(name=n1, star=s1), Intervention(name=n2, star=s2)
+            fwd, bwd = frozenset([i, j]), frozenset([j, i])
+            if list(fwd) != list(bwd):
+                yield (n1, s1, n2, s2), fwd, bwd
+                found += 1
+                if found >= 12:
+                    return
+
+
+def check_construction_order(res: Res):
+    """The canonical form, its text and the sort keys must not depend on the iteration order of intervention sets."""
+    from y0.dsl import CounterfactualVariable, P
+    from y0.mutate import canonicalize
+
+    sets = list(colliding_intervention_sets())
+    res.extra["colliding_intervention_sets_found"] += len(sets)
+    for (n1, s1, n2, s2), fwd, bwd in sets:
+        # a second factor whose sorted reading 'crosses' the first one's
+        other = frozenset(type(next(iter(fwd)))(name=i.name, star=not i.star) for i in fwd)
+        for f1, f2 in ((fwd, other), (other, fwd)):
+            outs = []
+            for a_set in (fwd, bwd) if f1 is fwd else (other,):
+                for b_set in (fwd, bwd) if f2 is fwd else (other,):
+                    res.transitions += 1
+                    va = CounterfactualVariable(name="A", star=None, interventions=a_set)
+                    vb = CounterfactualVariable(name="A", star=None, interventions=b_set)
+                    e = P(va) * P(vb)
+                    c = canonicalize(e)
+                    outs.append((str(c), struct_key(c), str(e)))
+            res.states += 1
+            if len({o[:2] for o in outs}) != 1 or len({o[2] for o in outs}) != 1:
+                res.violation(
+                    "construction_order",
+                    {"interventions": [n1, "+" if s1 else "-", n2, "+" if s2 else "-"]},
+                    f"the same product prints / canonicalises differently depending on the iteration order of an intervention set: {sorted(set(outs))}",
+                )
+                res.outcomes["construction_order_dependent"] += 1
+            else:
+                res.outcomes["construction_order_independent"] += 1
 
 
 def describe(tier):
@@ -172,6 +225,9 @@ def classify_pres(c1, cv):
 def work(shard, tier, seed):
     alpha, depth, lo, hi = shard
     res = Res()
+    if alpha == "construction":
+        check_construction_order(res)
+        return res
     ex = Explorer(alpha, depth, seed, tier=tier)
     ex.texts = []
     ex.run(res, lo, hi, on_state=on_state, on_transition=None)
